@@ -37,24 +37,20 @@ Section Names.
   Qed.
 
   Definition Mc (c : clo) : Prop := forall st j st', c st = Ok (j, st') -> Forall P (names st) -> Forall P (names st').
-  Lemma tolist_names : forall dims cs st j cs' st', Forall Mc cs -> tolist_state dims cs st = Ok (j, cs', st') ->
-    Forall P (names st) -> Forall P (names st') /\ Forall Mc cs'.
+  Lemma run_all_names cs : Forall Mc cs -> forall st js st', run_all cs st = Ok (js, st') -> Forall P (names st) -> Forall P (names st').
   Proof.
-    induction dims as [|d dims IH]; intros cs st j cs' st' Hcs H Hn; cbn [tolist_state] in H.
-    - destruct cs as [|c cs]; [discriminate|]. inv_bind H. inversion Hcs; subst. split; [eauto|assumption].
-    - destruct (fresh st) as [lid st0] eqn:Hf.
+    induction 1 as [|c cs Hc Hcs IH]; intros st js st' H Hn; cbn [run_all] in H.
+    - injection H as <- <-. exact Hn.
+    - inv_bind H. eapply IH; [eassumption|]. eapply Hc; eassumption.
+  Qed.
+  Lemma content_names_clos dims cs : Forall Mc cs -> Forall Mc (content_clos dims cs).
+  Proof.
+    apply content_clos_ind.
+    - intros st j st' H. discriminate H.
+    - intros cs0 Hcs st j st' H Hn. unfold list_clo in H. destruct (fresh st) as [lid st0] eqn:Hf.
       assert (Hn0 : Forall P (names st0)) by (unfold fresh in Hf; injection Hf as <- <-; exact Hn).
-      match type of H with context [(fix rep (n : nat) (cs : list clo) (st : dst) {struct n} := _)] =>
-        set (rep := (fix rep (n : nat) (cs : list clo) (st : dst) {struct n} : res (list json * list clo * dst) := _)) in H end.
-      assert (Hrep : forall n cs st js cs' st', Forall Mc cs -> rep n cs st = Ok (js, cs', st') -> Forall P (names st) ->
-                Forall P (names st') /\ Forall Mc cs').
-      { induction n as [|n IHn]; intros cs1 st1 js cs1' st1' Hc Hr Hn1; cbn in Hr.
-        - injection Hr as <- <- <-. split; assumption.
-        - destruct (tolist_state dims cs1 st1) as [[[j1 cs2] st2]|] eqn:E1; [|discriminate]. cbn [bind] in Hr.
-          destruct (rep n cs2 st2) as [[[js2 cs3] st3]|] eqn:E2; [|discriminate]. cbn [bind] in Hr.
-          injection Hr as <- <- <-. destruct (IH _ _ _ _ _ Hc E1 Hn1) as [Hn2 Hc2]. exact (IHn _ _ _ _ _ Hc2 E2 Hn2). }
-      destruct (rep d cs st0) as [[[items cs1] st1]|] eqn:E1; [|discriminate]. cbn [bind] in H.
-      injection H as <- <- <-. exact (Hrep _ _ _ _ _ _ Hcs E1 Hn0).
+      destruct (run_all cs0 st0) as [[items st1]|] eqn:E1; [|discriminate H]. cbn [bind] in H. injection H as <- <-.
+      eapply run_all_names; eassumption.
   Qed.
 
   Lemma fresh_names st : names (snd (fresh st)) = names st. Proof. reflexivity. Qed.
@@ -85,19 +81,22 @@ Section Names.
       destruct (fresh st0) as [ktid st0'] eqn:Hf2. inv_bind H. eapply IHf; [eassumption|].
       eapply content_names; [exact IH|eassumption|]. unfold fresh in Hf, Hf2. injection Hf as <- <-. injection Hf2 as <- <-. exact Hn.
     - intros id m c sh l IH st j st' H Hn. cbn [get_state] in H.
-      destruct (tolist_state _ _ _) as [[[ser cs'] st1]|] eqn:E0; [|discriminate]. cbn [bind] in H.
-      destruct (jindex ser _) as [cont|]; [|discriminate]. cbn [bind] in H. destruct (shape_state sh st1) as [shj st2] eqn:E1. injection H as <- <-.
+      destruct (shape_okb sh (length l)); [|discriminate H].
+      destruct (fresh st) as [lid st0] eqn:Hf0.
+      assert (Hn0 : Forall P (names st0)) by (unfold fresh in Hf0; injection Hf0 as <- <-; exact Hn).
+      destruct (run_all _ st0) as [[items st1]|] eqn:E0; [|discriminate H]. cbn [bind] in H.
+      destruct (shape_state sh st1) as [shj st2] eqn:E1. injection H as <- <-.
       assert (Hc : Forall Mc (map (fun x s0 => get_state E x s0) l)).
       { clear -IH. induction IH; cbn [map]; constructor; auto. }
-      destruct (tolist_names _ _ _ _ _ _ Hc E0 Hn) as [Hn1 _].
+      pose proof (run_all_names _ (content_names_clos (map Z.to_nat sh) _ Hc) _ _ _ E0 Hn0) as Hn1.
       assert (Hsh : forall dims st0 js st3, shape_items dims st0 = (js, st3) -> names st3 = names st0).
-      { induction dims as [|d dims IHd]; intros st0 js st3 Hs; cbn [shape_items] in Hs; [injection Hs as <- <-; reflexivity|].
-        destruct (int_obj d st0) as [i st4] eqn:Ei. destruct (shape_items dims st4) as [rest st5] eqn:Er. injection Hs as <- <-.
+      { induction dims as [|d dims IHd]; intros st5 js st3 Hs; cbn [shape_items] in Hs; [injection Hs as <- <-; reflexivity|].
+        destruct (int_obj d st5) as [i st4] eqn:Ei. destruct (shape_items dims st4) as [rest st6] eqn:Er. injection Hs as <- <-.
         rewrite (IHd _ _ _ Er). unfold int_obj in Ei. destruct (is_small_int d); [injection Ei as <- <-; reflexivity|].
         unfold fresh in Ei. injection Ei as <- <-. reflexivity. }
       unfold shape_state in E1. destruct sh as [|d0 sh0].
       + cbn in E1. injection E1 as <- <-. exact Hn1.
-      + destruct (fresh st1) as [tid st3] eqn:Hf. destruct (shape_items (d0 :: sh0) st3) as [items st4] eqn:Es. injection E1 as <- <-.
+      + destruct (fresh st1) as [tid st3] eqn:Hf. destruct (shape_items (d0 :: sh0) st3) as [items' st4] eqn:Es. injection E1 as <- <-.
         rewrite (Hsh _ _ _ _ Es). unfold fresh in Hf. injection Hf as <- <-. exact Hn1.
     - intros id m c d k IHd IHk st j st' H Hn. cbn [get_state] in H. inv_bind H. eapply IHk; [eassumption|]. eapply IHd; eassumption.
     - intros id m c x IHx st j st' H Hn. cbn [get_state] in H. inv_bind H. eapply IHx; eassumption.
